@@ -141,7 +141,22 @@ def unassigned_writer_documents(case):
     return dict(case, problem={'plan': {'jobs': jobs}, 'fleet': {'vehicles': vehicles, 'profiles': [{'name': 'car'}]}}, matrix={'profile': 'car', 'travelTimes': [0], 'distances': [0]})
 
 
+def read_locks_documents(case):
+    import datetime
+    rfc = lambda t: datetime.datetime.fromtimestamp(int(t), datetime.timezone.utc).strftime('%Y-%m-%dT%H:%M:%SZ')
+    day = 86400
+    shift = lambda a, b: {'start': {'earliest': rfc(a), 'location': {'index': 0}}, 'end': {'latest': rfc(b), 'location': {'index': 0}}}
+    vt = lambda tid, vid: {'typeId': tid, 'vehicleIds': [vid], 'profile': {'matrix': 'car'}, 'costs': {'fixed': 1.0, 'distance': 1.0, 'time': 1.0},
+                           'shifts': [shift(0, 10 * day), shift(15 * day, 25 * day)], 'capacity': [10]}
+    jobs = [{'id': f'j{i}', 'deliveries': [{'places': [{'location': {'index': 0}, 'duration': 0.0}], 'demand': [1]}]} for i in range(1, 5)]
+    relations = [dict({'type': r['type'], 'jobs': r['jobs'], 'vehicleId': r['vehicle']}, **({'shiftIndex': r['shift']} if r['shift'] is not None else {})) for r in case['relations']]
+    problem = {'plan': {'jobs': jobs, 'relations': relations}, 'fleet': {'vehicles': [vt('typeA', 'v1'), vt('typeB', 'v2')], 'profiles': [{'name': 'car'}]}}
+    return dict(case, problem=problem, matrix={'profile': 'car', 'travelTimes': [0], 'distances': [0]})
+
+
 def run_native(case, profile='dev'):
+    if case.get('kind') == 'read_locks' and 'problem' not in case:
+        case = read_locks_documents(case)
     if case.get('kind') == 'unassigned_writer' and 'problem' not in case:
         case = unassigned_writer_documents(case)
     if case.get('kind') == 'relation_rules':
@@ -1026,6 +1041,21 @@ def evaluate(case, native):
             elif len(reasons) != 1:
                 return True, f'job{i} ({e}): {len(reasons)} reasons written, expected one'
         return False, 'every unassigned customer job is written once with its reasons'
+    if kind == 'read_locks':
+        want = []
+        for rel in case['relations']:
+            f, l = rel['jobs'][0], rel['jobs'][-1]
+            pos = 'fixed' if (f == 'departure' and l == 'arrival') else 'departure' if f == 'departure' else 'arrival' if l == 'arrival' else 'any'
+            want.append(((rel['vehicle'], rel['shift'] or 0), rel['type'], pos, [j for j in rel['jobs'] if j not in ('departure', 'arrival')]))
+        got = []
+        for lk in native['locks']:
+            if len(lk['accepts']) != 1:
+                return True, f'a lock accepts the vehicle shifts {lk["accepts"]} (relations {case["relations"]}): a relation pins its jobs to ONE vehicle shift'
+            for d in lk['details']:
+                got.append((tuple(lk['accepts'][0]), d['order'], d['position'], d['jobs']))
+        if sorted(got, key=str) != sorted(want, key=str):
+            return True, f'relations {case["relations"]} were translated into locks (vehicle/shift, order, position, jobs) {sorted(got, key=str)}, expected {sorted(want, key=str)}'
+        return False, 'every relation became a lock detail for its own vehicle shift'
     if kind == 'insertion_step':
         nt, a, legs = case['tasks'], case['actor'], case['legs']
         jn = ['J'] if nt == 1 else [f'J{i}' for i in range(nt)]
